@@ -47,18 +47,21 @@ func c06Full(c c06Case) (string, string) {
 	for _, db := range kit06.DBs {
 		items = append(items, rdbgen.SelectDB(uint32(db), rdbgen.LCanon))
 		for _, k := range kit06.Keys() {
-			v := rdbgen.StringVal(rdbgen.RawStr([]byte("v"), rdbgen.LCanon))
+			v := rdbgen.StringVal(rdbgen.RawStr([]byte(kit06.Marker(db)), rdbgen.LCanon))
 			c06Reg.Add(v.Type, v.Raw, v.Log)
 			items = append(items, rdbgen.Key(rdbgen.RawStr([]byte(k), rdbgen.LCanon), v, rdbgen.KeyOpts{}))
 		}
 	}
 	items = append(items, rdbgen.Aux(rdbgen.RawStr([]byte("lua"), rdbgen.LCanon), rdbgen.RawStr([]byte("return 1"), rdbgen.LCanon)))
 	file, _ := rdbgen.File(9, items)
-	syncConfig{TargetDB: -1, SenderCount: 16, SenderSize: 1 << 20}.apply()
+	syncConfig{TargetDB: c.TargetDB - 1, SenderCount: 16, SenderSize: 1 << 20}.apply()
 	c.Cfg.Apply()
 	defer kit06.Reset()
 	conf.Options.Parallel = 2
 	conf.Options.KeyExists = "none"
+	if c.TargetDB != 0 {
+		conf.Options.KeyExists = "rewrite" // the same key name arrives from several source databases
+	}
 	conf.Options.BigKeyThreshold = 1 << 30
 	conf.Options.TargetVersion = ""
 	conf.Options.TargetType = "standalone"
@@ -72,7 +75,7 @@ func c06Full(c c06Case) (string, string) {
 	aborted := false
 	hook.SetExitHook(func(int) { aborted = true })
 	defer hook.SetExitHook(nil)
-	ds := syncNewDs(syncConfig{TargetDB: -1, SenderCount: 16})
+	ds := syncNewDs(syncConfig{TargetDB: c.TargetDB - 1, SenderCount: 16})
 	var err error
 	done := make(chan struct{})
 	go func() {
@@ -83,7 +86,15 @@ func c06Full(c c06Case) (string, string) {
 	if aborted || err != nil {
 		return "abort", fmt.Sprintf("full sync fails: %v", err)
 	}
-	if k, w := kit06.Compare(c.Cfg, "full", c06Collect(srv)); k != "" {
+	var cmds []kit06.AppliedCmd
+	for _, a := range srv.Applied() {
+		cmds = append(cmds, kit06.AppliedCmd{DB: a.DB, Argv: a.Argv})
+	}
+	got, k, w := kit06.Observed(cmds, c.TargetDB-1)
+	if k != "" {
+		return k, w
+	}
+	if k, w := kit06.Compare(c.Cfg, "full", got); k != "" {
 		return k, w
 	}
 	if n := len(srv.Scripts()); (n == 1) == c.Cfg.Lua {
@@ -235,12 +246,10 @@ func TestVerif_C06(t *testing.T) {
 			// incremental path: target.db = -1 and every fixed target database that coincides with a
 			// source database (filtered or not), plus one the source never selects
 			tdbs := []int{0}
-			if path == "incr" {
-				for _, db := range kit06.DBs {
-					tdbs = append(tdbs, db+1)
-				}
-				tdbs = append(tdbs, 5+1)
+			for _, db := range kit06.DBs {
+				tdbs = append(tdbs, db+1)
 			}
+			tdbs = append(tdbs, 5+1)
 			for _, tdb := range tdbs {
 				c := c06Case{Path: path, Cfg: cfg, TargetDB: tdb}
 				var k, w string
